@@ -6,103 +6,23 @@ import CpProofs.Ssh.KexInit
 namespace Cp.Ssh
 open Cp Cp.Codec
 
-theorem beVal_eq_spec (b : Bytes) : beVal b = Spec.fromBytesBE b := by
-  rw [← natOfBE_eq_beVal]; rfl
-
-theorem splitItems_ok_inv {sep : UInt8} {body : Bytes} {items : List Bytes}
-    (h : splitItems sep body = .ok items) :
-    items ≠ [] ∧ (body = joinItems sep items ∨ body = joinItems sep items ++ [sep]) := by
-  unfold splitItems at h
-  split at h
-  · simp at h
-  · obtain ⟨h1, _, h3⟩ := splitAux_ok_shape sep none body items h
-    simp only [Option.getD_none, List.reverse_nil, List.nil_append] at h3
-    exact ⟨h1, h3⟩
-
-/-- an accepted name-list that is followed by more data is a complete RFC 4251 `string` on the
-wire; its names, joined by commas, are that string — up to the one trailing comma the parser
-tolerates -/
+/-- an accepted name-list is a complete RFC 4251 `string` on the wire and its names, joined by
+commas, are exactly that string (true since the repair: no truncation, no trailing comma) -/
 theorem nameList_takeString {codes : List Bytes} {r : Bytes} {ns : List Name} {m : Nat}
-    (h : parseNameList codes r = .ok (ns, m)) (hne : r.drop m ≠ []) :
+    (h : parseNameList codes r = .ok (ns, m)) :
     ∃ body items, Spec.Ssh.takeString r = some (body, r.drop m) ∧ nameTexts codes ns = .ok items ∧
-      (joinItems comma items = body ∨ joinItems comma items ++ [comma] = body) := by
-  obtain ⟨h4, hz | ⟨hnz, items, hs, hns, hm⟩⟩ := parseNameList_ok_inv h
-  · obtain ⟨hlen, hns, hm⟩ := hz
-    subst hns; subst hm
-    refine ⟨[], [], ?_, rfl, .inl rfl⟩
-    unfold Spec.Ssh.takeString
-    have : ¬ r.length < 4 := by omega
-    simp [this, ← beVal_eq_spec, hlen]
-  · generalize hlen : beVal (r.take 4) = len at *
-    have hfull : len ≤ (r.drop 4).length := by
-      by_cases hc : len ≤ (r.drop 4).length
-      · exact hc
-      exfalso
-      have : ((r.drop 4).take len).length = r.length - 4 := by
-        simp only [List.length_take, List.length_drop] at hc ⊢; omega
-      rw [this] at hm
-      have : r.drop m = [] := by
-        apply List.drop_eq_nil_of_le; omega
-      exact hne this
-    have hbl : ((r.drop 4).take len).length = len := by
-      simp only [List.length_take]; omega
-    rw [hbl] at hm
-    obtain ⟨_, hshape⟩ := splitItems_ok_inv hs
-    refine ⟨(r.drop 4).take len, items, ?_, ?_, ?_⟩
-    · unfold Spec.Ssh.takeString
-      have h1 : ¬ r.length < 4 := by omega
-      have h2 : ¬ (r.drop 4).length < len := by omega
-      simp only [h1, if_false, ← beVal_eq_spec, hlen, h2]
-      rw [hm, ← List.drop_drop]
-    · rw [hns]; exact nameTexts_map_classify codes items
-    · rcases hshape with h | h
-      · exact .inl h.symm
-      · exact .inr h.symm
+      joinItems comma items = body := by
+  obtain ⟨body, items, hb, ht, _, hj⟩ := parseNameList_ok_inv h
+  exact ⟨body, items, nameListBody_complete hb, ht, hj⟩
 
 theorem languageList_takeString {r : Bytes} {v : List (List Bytes)} {m : Nat}
-    (h : parseLanguageList r = .ok (v, m)) (hne : r.drop m ≠ []) :
-    ∃ body, Spec.Ssh.takeString r = some (body, r.drop m) := by
-  obtain ⟨h4, ⟨hlen, hm⟩ | ⟨hnz, hm⟩⟩ := languageList_parse_ok_inv h
-  · subst hm
-    refine ⟨[], ?_⟩
-    unfold Spec.Ssh.takeString
-    have : ¬ r.length < 4 := by omega
-    simp [this, ← beVal_eq_spec, hlen]
-  · generalize hlen : beVal (r.take 4) = len at *
-    have hfull : len ≤ (r.drop 4).length := by
-      by_cases hc : len ≤ (r.drop 4).length
-      · exact hc
-      exfalso
-      have : ((r.drop 4).take len).length = r.length - 4 := by
-        simp only [List.length_take, List.length_drop] at hc ⊢; omega
-      rw [this] at hm
-      have : r.drop m = [] := by
-        apply List.drop_eq_nil_of_le; omega
-      exact hne this
-    have hbl : ((r.drop 4).take len).length = len := by
-      simp only [List.length_take]; omega
-    rw [hbl] at hm
-    refine ⟨(r.drop 4).take len, ?_⟩
-    unfold Spec.Ssh.takeString
-    have h1 : ¬ r.length < 4 := by omega
-    have h2 : ¬ (r.drop 4).length < len := by omega
-    simp only [h1, if_false, ← beVal_eq_spec, hlen, h2]
-    rw [hm, ← List.drop_drop]
+    (h : parseLanguageList r = .ok (v, m)) : ∃ body, Spec.Ssh.takeString r = some (body, r.drop m) := by
+  obtain ⟨body, hb⟩ := languageList_parse_ok_inv h
+  exact ⟨body, nameListBody_complete hb⟩
 
-theorem nameList_ne_nil {codes : List Bytes} {r : Bytes} {ns : List Name} {m : Nat}
-    (h : parseNameList codes r = .ok (ns, m)) : r ≠ [] := by
-  have := (parseNameList_ok_inv h).1
-  intro hr; subst hr; simp at this
-
-theorem languageList_ne_nil {r : Bytes} {v : List (List Bytes)} {m : Nat}
-    (h : parseLanguageList r = .ok (v, m)) : r ≠ [] := by
-  have := (languageList_parse_ok_inv h).1
-  intro hr; subst hr; simp at this
-
-/-- the names parsed from a name-list are the wire string `body` (up to one tolerated trailing comma) -/
+/-- the names parsed from a name-list are the wire string `body` -/
 def Matches (codes : List Bytes) (ns : List Name) (body : Bytes) : Prop :=
-  ∃ items, nameTexts codes ns = .ok items ∧
-    (joinItems comma items = body ∨ joinItems comma items ++ [comma] = body)
+  ∃ items, nameTexts codes ns = .ok items ∧ joinItems comma items = body
 
 /-- every accepted KEXINIT has ten complete name-list strings on the wire and the eight algorithm
 lists of the parsed object are those strings -/
@@ -139,30 +59,16 @@ theorem kexInit_wire_strings {b : Bytes} {k : KexInit} {n : Nat} (h : kexInitCod
   obtain ⟨hn1, hck, _⟩ := rawN_parse_ok_inv p1
   subst hn1
   have henc := (parseNum_ok_inv hnum).2.2.2.1
-  -- each list is followed by data: the next field parsed
-  have e3 := nameList_ne_nil p3
-  have e4 := nameList_ne_nil p4
-  have e5 := nameList_ne_nil p5
-  have e6 := nameList_ne_nil p6
-  have e7 := nameList_ne_nil p7
-  have e8 := nameList_ne_nil p8
-  have e9 := nameList_ne_nil p9
-  have e10 := languageList_ne_nil p10
-  have e11 := languageList_ne_nil p11
-  have e12 : List.drop n11 (List.drop n10 (List.drop n9 (List.drop n8 (List.drop n7 (List.drop n6 (List.drop n5
-      (List.drop n4 (List.drop n3 (List.drop n2 (List.drop 16 (List.drop 1 b))))))))))) ≠ [] := by
-    have := (bool_parse_ok_inv p12).2
-    intro hr; rw [hr] at this; simp at this
-  obtain ⟨s1, i1, t1, m1⟩ := nameList_takeString p2 e3
-  obtain ⟨s2, i2, t2, m2⟩ := nameList_takeString p3 e4
-  obtain ⟨s3, i3, t3, m3⟩ := nameList_takeString p4 e5
-  obtain ⟨s4, i4, t4, m4⟩ := nameList_takeString p5 e6
-  obtain ⟨s5, i5, t5, m5⟩ := nameList_takeString p6 e7
-  obtain ⟨s6, i6, t6, m6⟩ := nameList_takeString p7 e8
-  obtain ⟨s7, i7, t7, m7⟩ := nameList_takeString p8 e9
-  obtain ⟨s8, i8, t8, m8⟩ := nameList_takeString p9 e10
-  obtain ⟨s9, t9⟩ := languageList_takeString p10 e11
-  obtain ⟨s10, t10⟩ := languageList_takeString p11 e12
+  obtain ⟨s1, i1, t1, m1⟩ := nameList_takeString p2
+  obtain ⟨s2, i2, t2, m2⟩ := nameList_takeString p3
+  obtain ⟨s3, i3, t3, m3⟩ := nameList_takeString p4
+  obtain ⟨s4, i4, t4, m4⟩ := nameList_takeString p5
+  obtain ⟨s5, i5, t5, m5⟩ := nameList_takeString p6
+  obtain ⟨s6, i6, t6, m6⟩ := nameList_takeString p7
+  obtain ⟨s7, i7, t7, m7⟩ := nameList_takeString p8
+  obtain ⟨s8, i8, t8, m8⟩ := nameList_takeString p9
+  obtain ⟨s9, t9⟩ := languageList_takeString p10
+  obtain ⟨s10, t10⟩ := languageList_takeString p11
   refine ⟨s1, s2, s3, s4, s5, s6, s7, s8, s9, s10,
     List.drop n11 (List.drop n10 (List.drop n9 (List.drop n8 (List.drop n7 (List.drop n6 (List.drop n5
       (List.drop n4 (List.drop n3 (List.drop n2 (List.drop 16 (List.drop 1 b))))))))))), ?_, ⟨i1, m1⟩, ⟨i2, m2⟩, ⟨i3, m3⟩, ⟨i4, m4⟩, ⟨i5, m5⟩,
@@ -181,35 +87,13 @@ theorem kexInit_wire_strings {b : Bytes} {k : KexInit} {n : Nat} (h : kexInitCod
     simp only [Spec.Ssh.kexInitStrings, Spec.Ssh.SSH_MSG_KEXINIT, ne_eq, not_true_eq_false, h16, or_self, if_false,
       Spec.Ssh.kexInitStrings.go, t1, t2, t3, t4, t5, t6, t7, t8, t9, t10, List.drop_succ_cons, List.drop_zero]
 
-/-- none of the ten name-list strings on the wire ends with a comma (RFC 4251: names have non-zero
-length, so a conformant name-list never does) -/
-def NoTrailingComma (b : Bytes) : Prop :=
-  ∀ strs rest, Spec.Ssh.kexInitStrings b = some (strs, rest) → ∀ l ∈ strs, l.getLast? ≠ some comma
-
-theorem matches_exact {codes : List Bytes} {ns : List Name} {body : Bytes} (h : Matches codes ns body)
-    (hc : body.getLast? ≠ some comma) : ∃ items, nameTexts codes ns = .ok items ∧ joinItems comma items = body := by
-  obtain ⟨items, h1, h2 | h2⟩ := h
-  · exact ⟨items, h1, h2⟩
-  · exfalso
-    apply hc
-    rw [← h2]
-    simp
-
-/-- HASSH and HASSH-server preimages of every accepted KEXINIT whose wire name-lists do not end in a
-comma are exactly the wire strings, ';'-joined -/
-theorem hassh_conforms_partial {b : Bytes} {k : KexInit} {n : Nat} (h : kexInitCodec.parse b = .ok (k, n))
-    (hc : NoTrailingComma b) :
+/-- HASSH and HASSH-server preimages of EVERY accepted KEXINIT are exactly the name-list strings on
+the wire, ';'-joined (the full statement; it was false while a trailing comma was tolerated) -/
+theorem hassh_conforms {b : Bytes} {k : KexInit} {n : Nat} (h : kexInitCodec.parse b = .ok (k, n)) :
     (∃ p, hasshPreimage k = .ok p ∧ Spec.Ssh.hasshPreimageOfWire b = some p) ∧
     (∃ p, hasshServerPreimage k = .ok p ∧ Spec.Ssh.hasshServerPreimageOfWire b = some p) := by
-  obtain ⟨s1, s2, s3, s4, s5, s6, s7, s8, s9, s10, rest, hw, m1, _, m3, m4, m5, m6, m7, m8⟩ := kexInit_wire_strings h
-  have hmem := hc _ _ hw
-  obtain ⟨i1, t1, j1⟩ := matches_exact m1 (hmem s1 (by simp))
-  obtain ⟨i3, t3, j3⟩ := matches_exact m3 (hmem s3 (by simp))
-  obtain ⟨i4, t4, j4⟩ := matches_exact m4 (hmem s4 (by simp))
-  obtain ⟨i5, t5, j5⟩ := matches_exact m5 (hmem s5 (by simp))
-  obtain ⟨i6, t6, j6⟩ := matches_exact m6 (hmem s6 (by simp))
-  obtain ⟨i7, t7, j7⟩ := matches_exact m7 (hmem s7 (by simp))
-  obtain ⟨i8, t8, j8⟩ := matches_exact m8 (hmem s8 (by simp))
+  obtain ⟨s1, s2, s3, s4, s5, s6, s7, s8, s9, s10, rest, hw, ⟨i1, t1, j1⟩, _, ⟨i3, t3, j3⟩, ⟨i4, t4, j4⟩,
+    ⟨i5, t5, j5⟩, ⟨i6, t6, j6⟩, ⟨i7, t7, j7⟩, ⟨i8, t8, j8⟩⟩ := kexInit_wire_strings h
   constructor
   · refine ⟨joinItems 0x3b [s1, s3, s5, s7], ?_, ?_⟩
     · simp [hasshPreimage, hasshText, hasshParts, t1, t3, t5, t7, j1, j3, j5, j7, bind, Except.bind, pure,
